@@ -897,6 +897,11 @@ class Effects:
                     pass
         if isinstance(a, ast.Call) and isinstance(a.func, ast.Name) and a.func.id == "len":
             lo = 0 if lo is None else max(lo, 0)
+        if lo is None and hi is None and isinstance(a, ast.Name):
+            # a single-assignment local stands for its defining expression (hoisted `wire_id = channel.id`)
+            al = self.repo.local_alias(a.id, fi)
+            if al is not None and not isinstance(al, ast.Constant) and not any(isinstance(x, ast.Name) and x.id == a.id for x in ast.walk(al)):
+                return self.bounds(al, fi, st)
         if isinstance(a, ast.Attribute) and a.attr == "id" and self.repo.type_of(a.value, fi) == "Channel":
             # A1: channel ids are counter-derived or read as int4 from the wire
             self.used_a1 = True
